@@ -171,6 +171,11 @@ func newFwdMock() *fwdMock {
 func c08Config(r *vlib.Rand, dir string, mockURL string, idx int) (string, []authRoute) {
 	var b strings.Builder
 	b.WriteString("ingress { listen 127.0.0.1:0 }\npull_api { listen 127.0.0.2:0\n auth token raw:tok }\nadmin_api { listen 127.0.0.3:0 }\n")
+	if idx%3 == 2 {
+		// process-wide settings that swap HTTP clients / instrument handlers must not
+		// change any authentication decision
+		b.WriteString("observability {\n tracing {\n  enabled on\n }\n}\n")
+	}
 	var routes []authRoute
 	var allVers []secVer
 	var body strings.Builder
@@ -256,7 +261,7 @@ func flipHex(s string, pos int) string {
 
 // C08: ingress authentication is sound and fails closed.
 func C08(c *vlib.Ctx) {
-	c.Rule("generated configurations with basic (1-3 users), hmac (inline secrets, secret_refs with validity windows, custom header names, tolerance 1s-1h) and forward auth (mock service: 200/204/299/301/302/401/403/404/429/500/503/600, the final 1xx answer 101, raw status lines 099 and 007 from a responder outside net/http, hang past timeout/reset/closed port/redirect to a 200) run through the production wiring under a virtual clock; per route a valid request and single-field mutations of it (body bit, path character, dot segments, method, timestamp digit, signature nibble, header removed/renamed, upper-case hex, wrong secret, secret outside its window, clock offsets around the tolerance, wrong user/password/scheme). Blank secret sources: the route's only HMAC secret comes from a file / environment variable that is empty or white space (inline shorthand, inline block, secret_ref; at start-up or blanked before a reload): refused, or running and still answering 401 to unsigned / empty-key / arbitrary-key requests. An independent authenticator written from the statement decides authenticity; monitor: queue changed => authentic; not authentic => 401 (basic/hmac), 401/403 passed through or 503 (forward) and queue unchanged. distinct_nontrivial = distinct (auth kind, mutation, authentic, status) classes.")
+	c.Rule("generated configurations with basic (1-3 users), hmac (inline secrets, secret_refs with validity windows, custom header names, tolerance 1s-1h) and forward auth (mock service: 200/204/299/301/302/401/403/404/429/500/503/600, the final 1xx answer 101, raw status lines 099 and 007 from a responder outside net/http, hang past timeout/reset/closed port/redirect to a 200) run through the production wiring under a virtual clock (every third configuration with tracing enabled); per route a valid request and single-field mutations of it (body bit, path character, dot segments, method, timestamp digit, signature nibble, header removed/renamed, upper-case hex, wrong secret, secret outside its window, clock offsets around the tolerance, wrong user/password/scheme). Blank secret sources: the route's only HMAC secret comes from a file / environment variable that is empty or white space (inline shorthand, inline block, secret_ref; at start-up or blanked before a reload): refused, or running and still answering 401 to unsigned / empty-key / arbitrary-key requests. An independent authenticator written from the statement decides authenticity; monitor: queue changed => authentic; not authentic => 401 (basic/hmac), 401/403 passed through or 503 (forward) and queue unchanged. distinct_nontrivial = distinct (auth kind, mutation, authentic, status) classes.")
 	c.Assume("completeness is not claimed, but a run in which no valid request is accepted is inconclusive; exactly at |now-ts| = tolerance either answer is accepted")
 	dir := c.Scratch()
 	c08BlankSecretSources(c, dir)
